@@ -44,7 +44,8 @@ def generate(rng, tier, index):
         triples = gen.gen_schema_graph(rng, n_nodes=n_nodes, n_classes=rng.randint(1, 3), n_props=rng.randint(1, 4), bnodes=bn)
     else:
         triples = gen.gen_graph(rng, n_nodes=n_nodes, n_classes=rng.randint(1, 3), n_props=rng.randint(1, 5), bnodes=bn,
-                                density=rng.choice([0.4, 0.6, 0.9]), kinds=("node", "str", "int", "lang", "date", "iri", "iri2", "cdt"))
+                                density=rng.choice([0.4, 0.6, 0.9]),
+                                kinds=("node", "str", "int", "lang", "date", "iri", "iri2", "cdt", "cdt2"))
     tp = gen.CUSTOM_TYPE if rng.random() < 0.12 else gen.RDF_TYPE
     triples = gen.retype(gen.ensure_class(triples), tp)
     family = "store" if rng.random() < 0.5 else "document"
@@ -58,8 +59,11 @@ def generate(rng, tier, index):
     relabel = {}
     if labels and rng.random() < 0.8:
         # legal label characters beyond [A-Za-z0-9_]: '-' and an inner '.' (genid / skolem style labels)
-        style = rng.choice(["_:z%d", "_:z%d", "_:genid-%d", "_:n.%dx", "_:b_%d-a.b"])
-        new = [style % i for i in range(len(labels))]
+        style = rng.choice(["_:z%d", "_:z%d", "_:genid-%d", "_:n.%dx", "_:b_%d-a.b", "underscores"])
+        if style == "underscores":
+            new = ["_:" + "_" * i + "n" for i in range(len(labels))]      # _:n, _:_n, _:__n ... are distinct labels
+        else:
+            new = [style % i for i in range(len(labels))]
         rng.shuffle(new)
         relabel = dict(zip(labels, new))
     n = len(triples)
@@ -96,7 +100,8 @@ def _doc(triples, fmt, scen=None):
     if fmt == "turtle_iter" and scen is not None and scen.get("ttl_prefixed"):
         # flat (one statement per line) Turtle with @prefix lines; custom datatypes may be written with a prefix the
         # streaming reader cannot resolve: then both orders must fail alike
-        return gen.to_turtle(triples, group=False, dialect="iter", prefixed_custom_datatypes=scen.get("ttl_prefixed") == "dt")
+        return gen.to_turtle(triples, group=False, dialect="iter", prefixed_custom_datatypes=scen.get("ttl_prefixed") == "dt",
+                             stable_labels=True)
     return gen.to_nt(triples)
 
 
